@@ -31,6 +31,8 @@ def main():
                             "tool_error": [ln for ln in p.stdout.splitlines() if ln.startswith("TOOL-ERROR")][:1]}
             print(cid, "exit", p.returncode, "violations", len(viol), detail[:1], flush=True)
     finally:
+        # `git apply -R` also removes files the patch created; `git checkout -- .` then restores anything else
+        subprocess.run(["git", "-C", REPO, "apply", "-R", patch])
         subprocess.run(["git", "-C", REPO, "checkout", "--", "."], check=True)
     out = os.path.join(d, "detection.json")
     prev = json.load(open(out)) if os.path.exists(out) else {}
